@@ -1,21 +1,28 @@
-"""Single source for MANIFEST.json: which properties are claimed, with what level text. `tools/mkmanifest.py` renders it."""
+"""MANIFEST source: claims live next to each spec (vlib/props/cxx.py: CLAIM); this module collects them."""
+import importlib, os
 
 TB = ("Trusted: Lean 4.33 kernel; axioms propext/Quot.sound/Classical.choice only (audited by #print axioms every run; no sorry, "
       "no native_decide, no own axioms); tools/translate.py (constants/tables regenerated from the headers every run); the "
       "correspondence harness + generators (sampled histories, public-API observations, ASan+UBSan). ")
 
-CLAIMS = {
-    "C01": dict(
-        text=("Kernel-checked theorems over ALL operation histories and configurations of an executable Lean model of the update theta "
-              "sketch (retained set = distinct nonzero hashes below theta, sorted/distinct; theta antitone, theta in seen or start value, "
-              "theta<start => >=k entries, exact while the stream fits, trim<=k, compact exposes the same content), plus a differential tie "
-              "of that model and of the Lean MurmurHash3/canonicalisation to the real headers on generated histories, plus the property "
-              "oracle on every implementation trace."),
-        note=TB + "Modelled, not verified: the open-addressing table layout (abstracted to a sorted association list; L1). "
-                  "Hash value 0 is dropped by design and excluded from the statement.",
-        technique="Lean 4 invariant proof by induction over operation lists + differential correspondence (model vs real headers) + trace oracle",
-        design="DESIGN.md §3 C01"),
-}
-
-PENDING_REASON = "check not built yet in this round (model/theorems/correspondence pending); see DESIGN.md §6 build order"
 ALL = ["C%02d" % i for i in range(1, 21)]
+PENDING_REASON = "check not built yet (model/theorems/correspondence pending); see DESIGN.md section 6 build order"
+NA = {}      # property -> reason, for properties deliberately not claimed
+
+
+def collect():
+    claims = {}
+    for pid in ALL:
+        f = os.path.join(os.path.dirname(__file__), "props", pid.lower() + ".py")
+        if not os.path.exists(f):
+            continue
+        mod = importlib.import_module("vlib.props." + pid.lower())
+        c = getattr(mod, "CLAIM", None)
+        if c:
+            c = dict(c)
+            c["note"] = TB + c["note"]
+            claims[pid] = c
+    return claims
+
+
+HOOK_COMMITS = ["a712e9f", "7431040"]
